@@ -8,7 +8,9 @@
   no-overflow conditions of the interpolation, derived; `segFinite_statement` refuted as recorded) and
   Props/C19DecodedLinear.lean (end to end for linear sliders: the hypotheses derived for the curve `Curve::new` computes) and
   Props/C19IeeeFinal.lean (no overflow of the natural lengths: `linear_curve_position_err_float32` = the recorded full statement;
-  `position_lipschitz_float32_uncond`: no non-degeneracy hypothesis). All in namespace Rosu.C19.
+  `position_lipschitz_float32_uncond`: no non-degeneracy hypothesis) and
+  Props/C19DecodedLinearLen.lean (linear sliders WITH a requested length: `linear_curve_len_shape`,
+  `linear_curve_len_position_err_float32_partial`, witness `linear_len_length_mismatch`). All in namespace Rosu.C19.
 -/
 import RosuModel.Props.C19Curve
 import RosuModel.Props.C19Ieee
@@ -20,3 +22,4 @@ import RosuModel.Props.C19IeeeFinite
 import RosuModel.Props.C19IeeeLipschitz
 import RosuModel.Props.C19DecodedLinear
 import RosuModel.Props.C19IeeeFinal
+import RosuModel.Props.C19DecodedLinearLen
